@@ -19,7 +19,7 @@ ASSUMPTIONS = [
     "callees outside /repo/src are uninterpreted",
 ]
 TECHNIQUE = 'custom static analysis over the clang AST: path-sensitive dominating-fact dataflow at every handle-to-object site, finite-domain evaluation of the access matrix, the find filter and the decrypt gate, who-may-write sets'
-LEVEL_TEXT = ('Every handle-use site, every creation site, all 48 cells of the access matrix and every session state of the find filter are decided on every abstract path of the current source. '
+LEVEL_TEXT = ('Every handle-use site, every creation site, all 168 cells of the access matrix (non-canonical CK_BBOOL values included) and every session state of the find filter are decided on every abstract path of the current source. '
               'This is the right level for the access-control clause (its truth is in the shape of the code at ~25 entry points); the quantification over call histories is reduced to it plus the purge rules of C11.')
 LEVEL_NOTE = 'trusted: clang front end, normaliser, abstract interpreter (ESP-style merging keyed on the access facts); alias assumption on OSObject* locals'
 
